@@ -1,9 +1,10 @@
 import SerfModel.Check.Core
 import SerfModel.Model.Conflict
 /-!
-C36 checker.  One op:
+C36 checker.  Ops:
 
-  `vote <flavour> <selfaddr> <selfport> <payload>/<class> …`  → `alive m/r` | `shutdown m/r`
+  `r <payload>/<class>`                      one reply of the coming conflict → `ok`
+  `vote <flavour> <selfaddr> <selfport>`     the conflict runs with these replies → `alive m/r` | `shutdown m/r`
 
 `payload` is the reply payload handed to the real node; `class` says what the bytes
 after the type byte decode to (`X` error, `N` nil member, `A<addr>:<port>`): it
@@ -55,10 +56,16 @@ def parseImpl (s : String) : Option (Bool × Nat × Nat) :=
     | _ => none
   | _ => none
 
-def step (s : Unit) (op : List String) (impl : String) : LineOut Unit :=
+abbrev St := List (Bytes × Option (Option MAddr))
+
+def step (s : St) (op : List String) (impl : String) : LineOut St :=
   match op with
-  | "vote" :: _flavour :: a :: p :: rs =>
-    match bytesOfHex? a, p.toNat?, rs.mapM parseReply with
+  | ["r", r] =>
+    match parseReply r with
+    | some rep => { state := s ++ [rep], model := some "ok" }
+    | none => { state := s, model := some "bad-op" }
+  | ["vote", _flavour, a, p] =>
+    match bytesOfHex? a, p.toNat?, some s with
     | some addr, some port, some replies =>
       let decode := tableDecoder replies
       let t := tally decode addr port (replies.map (·.1))
@@ -81,10 +88,10 @@ def step (s : Unit) (op : List String) (impl : String) : LineOut Unit :=
           else if ir != v then some ("valid-count", s!"the node counted {ir} valid replies, there were {v}")
           else if im != m then some ("mine-count", s!"the node counted {im} replies naming it, there were {m}")
           else none
-      { state := s, model := some model, monitor := mon }
+      { state := [], model := some model, monitor := mon }
     | _, _, _ => { state := s, model := some "bad-op" }
   | _ => { state := s, model := some "bad-op" }
 
-def checker : Checker := { σ := Unit, init := (), step := step }
+def checker : Checker := { σ := St, init := [], step := step }
 
 end SerfModel.Check.C36
